@@ -5,7 +5,9 @@
 // values are then compared at run time with the named members (a wrong constant must be a reported violation, not a
 // build failure, so nothing here is a static_assert).
 #include "../engine/report.hpp"
+#include <ImathColor.h>
 #include <ImathVec.h>
+#include <half.h>
 
 using namespace IMATH_NAMESPACE;
 using vf::R;
@@ -37,6 +39,34 @@ template <class T> void vec4 (const char* tn)
     if (!(a == T (3) && b == T (5) && c == T (7) && d == T (11)))
         R ().fail ("Vec4::operator[]const.constant-evaluated", std::string ("T=") + tn + " v=(3,5,7,11)", "3 5 7 11",
                    vf::Msg () << (double) a << " " << (double) b << " " << (double) c << " " << (double) d);
+}
+// half elements (built from bit patterns: half(float) is not constexpr) and Color3 (inherits Vec3's consteval body)
+void vec_half ()
+{
+    constexpr half h3 (half::FromBits, 0x4200), h5 (half::FromBits, 0x4500), h7 (half::FromBits, 0x4700), h11 (half::FromBits, 0x4980);
+    constexpr Vec2<half> v2 (h3, h5);
+    constexpr half a2 = v2[0], b2 = v2[1];
+    constexpr Vec3<half> v3 (h3, h5, h7);
+    constexpr half a3 = v3[0], b3 = v3[1], c3 = v3[2];
+    constexpr Vec4<half> v4 (h3, h5, h7, h11);
+    constexpr half a4 = v4[0], b4 = v4[1], c4 = v4[2], d4 = v4[3];
+    n_cases += 3;
+    auto bits = [] (half h) { return (unsigned) h.bits (); };
+    if (!(bits (a2) == 0x4200 && bits (b2) == 0x4500))
+        R ().fail ("Vec2::operator[]const.constant-evaluated", "T=half v=(3,5)", "0x4200 0x4500", vf::Msg () << bits (a2) << " " << bits (b2));
+    if (!(bits (a3) == 0x4200 && bits (b3) == 0x4500 && bits (c3) == 0x4700))
+        R ().fail ("Vec3::operator[]const.constant-evaluated", "T=half v=(3,5,7)", "0x4200 0x4500 0x4700", vf::Msg () << bits (a3) << " " << bits (b3) << " " << bits (c3));
+    if (!(bits (a4) == 0x4200 && bits (b4) == 0x4500 && bits (c4) == 0x4700 && bits (d4) == 0x4980))
+        R ().fail ("Vec4::operator[]const.constant-evaluated", "T=half v=(3,5,7,11)", "0x4200 0x4500 0x4700 0x4980",
+                   vf::Msg () << bits (a4) << " " << bits (b4) << " " << bits (c4) << " " << bits (d4));
+}
+template <class T> void color3 (const char* tn)
+{
+    constexpr Color3<T> v (T (3), T (5), T (7));
+    constexpr T a = v[0], b = v[1], c = v[2];
+    ++n_cases;
+    if (!(a == T (3) && b == T (5) && c == T (7)))
+        R ().fail ("Color3::operator[]const.constant-evaluated", std::string ("T=") + tn + " v=(3,5,7)", "3 5 7", vf::Msg () << (double) a << " " << (double) b << " " << (double) c);
 }
 // constexpr predicates that loop over operator[]: must depend on EVERY component also when constant-evaluated
 template <class V, int N> void preds (const char* name)
@@ -88,10 +118,12 @@ void c04_consteval_stage ()
     vec2<int> ("int"); vec2<short> ("short"); vec2<float> ("float"); vec2<double> ("double"); vec2<long> ("int64");
     vec3<int> ("int"); vec3<short> ("short"); vec3<float> ("float"); vec3<double> ("double"); vec3<long> ("int64");
     vec4<int> ("int"); vec4<short> ("short"); vec4<float> ("float"); vec4<double> ("double"); vec4<long> ("int64");
+    vec_half ();
+    color3<float> ("float"); color3<unsigned char> ("unsigned char");
     preds<Vec2<float>, 2> ("Vec2"); preds<Vec2<double>, 2> ("Vec2"); preds<Vec2<int>, 2> ("Vec2");
     preds<Vec3<float>, 3> ("Vec3"); preds<Vec3<double>, 3> ("Vec3"); preds<Vec3<int>, 3> ("Vec3");
     preds<Vec4<float>, 4> ("Vec4"); preds<Vec4<double>, 4> ("Vec4"); preds<Vec4<int>, 4> ("Vec4");
     R ().add ("states", n_cases); R ().add ("evaluations", n_cases); R ().add ("transitions", n_cases);
     R ().cls ("constant-evaluated.operator[]-and-predicates", n_cases);
-    R ().stage_done ("Vec2/3/4 x {short,int,int64,float,double}: every index of the const operator[] and equalWithAbs/RelError in every slot, in constant expressions under -std=c++2b");
+    R ().stage_done ("Vec2/3/4 x {short,int,int64,half,float,double}, Color3 x {float, unsigned char}: every index of the const operator[] and equalWithAbs/RelError in every slot, in constant expressions under -std=c++2b");
 }
